@@ -14,6 +14,9 @@
     5. every generated schema entry against its documented domain, for ALL values
     6. counterexamples (findings): NaN inside a list, multi-character band names,
        a reused machine
+    7. from entries to whole steps: a step the documentation refuses is refused, a step the
+       documentation accepts is accepted — for every class, every configuration
+    8. the defaults of the input section
 -/
 import PandoraModel.Model.ConfigSpec
 import PandoraModel.Generated.Schemas
@@ -937,5 +940,655 @@ example :
     (pipelineOf (checkPipelineSection noOracle {} registry pipeB monoL monoR {})).map
       (fun c => match Dict.lookup c "pipeline" with | some (.obj p) => Dict.keys p | _ => []) =
     some ["matching_cost", "disparity"] := by decide
+
+/-! ### 7. From schema entries to whole steps -/
+
+theorem acceptsEntries_iff (o : Oracle) (entries : List (String × Bool × Schema)) (kvs : Dict) :
+    Schema.acceptsEntries o entries kvs = true ↔
+      ∀ e ∈ entries, (match Dict.lookup kvs e.1 with
+                      | some v => Schema.accepts o e.2.2 v = true
+                      | none => e.2.1 = true) := by
+  induction entries with
+  | nil => simp [Schema.acceptsEntries]
+  | cons e rest ih =>
+    obtain ⟨k, opt, s⟩ := e
+    simp only [Schema.acceptsEntries, Bool.and_eq_true, ih, List.mem_cons, forall_eq_or_imp]
+    constructor
+    · intro ⟨h1, h2⟩
+      refine ⟨?_, h2⟩
+      cases hl : Dict.lookup kvs k <;> simp_all
+    · intro ⟨h1, h2⟩
+      refine ⟨?_, h2⟩
+      cases hl : Dict.lookup kvs k <;> simp_all
+
+/-- `Checker(schema).validate(cfg)` for a dictionary schema: every named key validates (an absent
+    one must be optional) and the dictionary has no other key -/
+theorem dict_accepts_iff (o : Oracle) (entries : List (String × Bool × Schema)) (kvs : Dict) :
+    Schema.accepts o (.dict entries) (.obj kvs) = true ↔
+      (∀ e ∈ entries, (match Dict.lookup kvs e.1 with
+                       | some v => Schema.accepts o e.2.2 v = true
+                       | none => e.2.1 = true)) ∧
+      (∀ kv ∈ kvs, ∃ e ∈ entries, e.1 = kv.1) := by
+  have h : Schema.accepts o (.dict entries) (.obj kvs) =
+      (Schema.acceptsEntries o entries kvs && kvs.all (fun kv => entries.any (fun e => e.1 == kv.1))) := by
+    rw [Schema.accepts]
+  rw [h]
+  simp only [Bool.and_eq_true, acceptsEntries_iff, List.all_eq_true, List.any_eq_true, beq_iff_eq]
+
+
+theorem lookup_of_mem_nodup (d : Dict) (k : String) (v : JVal) (hnd : Dict.nodup d = true) (h : (k, v) ∈ d) :
+    Dict.lookup d k = some v := by
+  induction d with
+  | nil => simp at h
+  | cons kv rest ih =>
+    obtain ⟨k', v'⟩ := kv
+    simp only [Dict.nodup, Bool.and_eq_true, Bool.not_eq_true'] at hnd
+    simp only [List.mem_cons, Prod.mk.injEq] at h
+    rcases h with ⟨rfl, rfl⟩ | h
+    · simp [Dict.lookup]
+    · have hne : k' ≠ k := by
+        intro e; subst e
+        have : Dict.hasKey rest k' = true := by
+          rw [hasKey_iff_mem_keys]; exact List.mem_map_of_mem (f := (·.1)) h
+        simp [this] at hnd
+      simp [Dict.lookup, hne, ih hnd.2 h]
+
+theorem mem_of_lookup (d : Dict) (k : String) (v : JVal) (h : Dict.lookup d k = some v) : (k, v) ∈ d := by
+  induction d with
+  | nil => simp [Dict.lookup] at h
+  | cons kv rest ih =>
+    obtain ⟨k', v'⟩ := kv
+    by_cases e : k' = k
+    · subst e; simp [Dict.lookup] at h; subst h; simp
+    · simp [Dict.lookup, e] at h; exact List.mem_cons_of_mem _ (ih h)
+
+theorem pyEq_str_NaN (v : JVal) (h : rewriteLeaf v = v) : pyEq v (.str "NaN") = false := by
+  have hne : v ≠ .str "NaN" := by
+    intro e; subst e; simp [rewriteLeaf] at h
+  cases v <;> simp [pyEq, JVal.toNum?]
+  rename_i s
+  intro e; exact hne (by rw [e])
+
+theorem Dom.and_eq_reject (a b : Dom) : Dom.and a b = .reject ↔ a = .reject ∨ b = .reject := by
+  cases a <;> cases b <;> simp [Dom.and]
+
+theorem Dom.and_eq_accept (a b : Dom) : Dom.and a b = .accept ↔ a = .accept ∧ b = .accept := by
+  cases a <;> cases b <;> simp [Dom.and]
+
+/-- a step is documented as refused exactly when some key is neither the method key nor a
+    parameter, or some parameter value is outside its documented domain -/
+theorem paramsVerdict_reject (d : DocClass) (cfg : Dict) (h : paramsVerdict d cfg = .reject) :
+    ∃ k v, (k, v) ∈ cfg ∧ k ≠ d.methodKey ∧
+      (d.param? k = none ∨ ∃ p, d.param? k = some p ∧ p.dom.dom v = .reject) := by
+  induction cfg with
+  | nil => simp [paramsVerdict] at h
+  | cons kv rest ih =>
+    obtain ⟨k, v⟩ := kv
+    simp only [paramsVerdict, Dom.and_eq_reject] at h
+    rcases h with h | h
+    · by_cases hk : k = d.methodKey
+      · simp [hk] at h
+      · simp only [hk, if_false] at h
+        refine ⟨k, v, by simp, hk, ?_⟩
+        cases hp : d.param? k with
+        | none => exact Or.inl rfl
+        | some p => simp [hp] at h; exact Or.inr ⟨p, rfl, h⟩
+    · obtain ⟨k', v', hm, hr⟩ := ih h
+      exact ⟨k', v', List.mem_cons_of_mem _ hm, hr⟩
+
+/-- a guard is respected: when the user supplies the guarded key (and it is not a NaN-rewriting
+    key), a successful run means the user's value passed the guard -/
+theorem guard_respected (l r : ImgInfo) (acts : List Action) :
+    ∀ (cfg out : Dict) (k : String) (g u : JVal) (e : Err),
+      runActions l r acts cfg = .ok out → Action.guardNe k g e ∈ acts → k ∉ nanKeys acts →
+      Dict.lookup cfg k = some u → pyEq u g = true := by
+  induction acts with
+  | nil => intro cfg out k g u e _ hm; simp at hm
+  | cons a rest ih =>
+    intro cfg out k g u e h hm hn hl
+    obtain ⟨cfg', hA, hR⟩ := runActions_ok_cons h
+    -- the lookup of k survives the head action
+    have hl' : a ≠ Action.guardNe k g e → Dict.lookup cfg' k = some u ∧ Action.guardNe k g e ∈ rest ∧ k ∉ nanKeys rest := by
+      intro hne
+      have hmr : Action.guardNe k g e ∈ rest := by
+        rcases List.mem_cons.1 hm with h0 | h0
+        · exact absurd h0.symm hne
+        · exact h0
+      cases a with
+      | default k0 v0 =>
+        simp only [runAction] at hA
+        refine ⟨?_, hmr, by simpa [nanKeys] using hn⟩
+        by_cases hk : Dict.hasKey cfg k0 = true
+        · simp [hk] at hA; subst hA; exact hl
+        · simp [hk] at hA; subst hA
+          rw [lookup_setKey]
+          have : k0 ≠ k := by intro e0; subst e0; simp [Dict.hasKey, hl] at hk
+          simp [this, hl]
+      | defaultElifNaN k0 v0 =>
+        have hk0 : k0 ≠ k := by intro e0; subst e0; simp [nanKeys] at hn
+        have hnr : k ∉ nanKeys rest := by
+          simp [nanKeys] at hn; exact hn.2
+        refine ⟨?_, hmr, hnr⟩
+        simp only [runAction] at hA
+        cases hl0 : Dict.lookup cfg k0 with
+        | none => simp [hl0] at hA; subst hA; rw [lookup_setKey]; simp [hk0, hl]
+        | some cur =>
+          simp [hl0] at hA
+          by_cases hp : pyEq cur (.str "NaN") = true
+          · simp [hp] at hA; subst hA; rw [lookup_setKey]; simp [hk0, hl]
+          · simp [hp] at hA; subst hA; exact hl
+      | guardNe k0 v0 e0 =>
+        refine ⟨?_, hmr, by simpa [nanKeys] using hn⟩
+        simp only [runAction] at hA
+        cases hl0 : Dict.lookup cfg k0 with
+        | none => simp [hl0] at hA; subst hA; exact hl
+        | some cur =>
+          simp [hl0] at hA
+          by_cases hp : pyEq cur v0 = true
+          · simp [hp] at hA; subst hA; exact hl
+          · simp [hp] at hA
+      | refuseGrids =>
+        refine ⟨?_, hmr, by simpa [nanKeys] using hn⟩
+        simp only [runAction] at hA
+        by_cases hg : (l.dispSource.isStr || r.dispSource.isStr) = true
+        · simp [hg] at hA
+        · simp [hg] at hA; subst hA; exact hl
+    by_cases hhead : a = Action.guardNe k g e
+    · subst hhead
+      simp only [runAction, hl] at hA
+      by_cases hp : pyEq u g = true
+      · exact hp
+      · simp [hp] at hA
+    · obtain ⟨h1, h2, h3⟩ := hl' hhead
+      exact ih cfg' out k g u e hR h2 h3 h1
+
+
+def isStepGuard : Action → Bool
+  | .guardNe k v _ => k == "step" && decide (v = .int 1)
+  | _ => false
+
+/-- further facts about a class of the source and its documented class, read off the tables -/
+def stepFacts (c : ClassDesc) (d : DocClass) : Bool :=
+  d.params.all (fun p => p.name != "step" ||
+    (decide (p.dom = .stepOne) && decide (entry c "step" = entry SadSsd "step") &&
+     c.actions.any isStepGuard && !(nanKeys c.actions).contains "step"))
+
+theorem generated_step_facts :
+    allClasses.all (fun kc => kc.2.names.all (fun m =>
+      match docClass? kc.1 m with
+      | some d => stepFacts kc.2 d
+      | none => false)) = true := by decide
+
+theorem facts_of_mem {kind : String} {c : ClassDesc} {m : String} {d : DocClass}
+    (hkc : (kind, c) ∈ allClasses) (hm : m ∈ c.names) (hd : docClass? kind m = some d) :
+    defaultsAgree c d = true ∧ stepFacts c d = true := by
+  have h1 := generated_defaults_documented
+  have h2 := generated_step_facts
+  rw [List.all_eq_true] at h1 h2
+  have a1 := h1 (kind, c) hkc
+  have a2 := h2 (kind, c) hkc
+  rw [List.all_eq_true] at a1 a2
+  have b1 := a1 m hm
+  have b2 := a2 m hm
+  simp only [hd] at b1 b2
+  exact ⟨b1, b2⟩
+
+theorem row_of_mem {kind : String} {c : ClassDesc} {m : String} {d : DocClass} {p : DocParam}
+    (hkc : (kind, c) ∈ allClasses) (hm : m ∈ c.names) (hd : docClass? kind m = some d)
+    (hp : p ∈ d.params) (hs : p.name ≠ "step") : (entry c p.name, p.dom) ∈ rows := by
+  unfold rows
+  rw [List.mem_flatMap]
+  refine ⟨(kind, c), hkc, ?_⟩
+  rw [List.mem_flatMap]
+  refine ⟨m, hm, ?_⟩
+  simp only [hd]
+  rw [List.mem_map]
+  refine ⟨p, ?_, rfl⟩
+  rw [List.mem_filter]
+  exact ⟨hp, by simpa using hs⟩
+
+theorem param_mem {d : DocClass} {k : String} {p : DocParam} (h : d.param? k = some p) :
+    p ∈ d.params ∧ p.name = k := by
+  unfold DocClass.param? at h
+  have := List.find?_some h
+  exact ⟨List.mem_of_find?_eq_some h, by simpa using this⟩
+
+theorem entry_mem {c : ClassDesc} {k : String} (h : ∃ e ∈ c.schema, e.1 = k) :
+    ∃ e ∈ c.schema, e.1 = k ∧ e.2.2 = entry c k := by
+  unfold entry
+  cases hf : c.schema.find? (fun e => e.1 == k) with
+  | none =>
+    obtain ⟨e, he, hk⟩ := h
+    rw [List.find?_eq_none] at hf
+    exact absurd (by simpa using hk) (by simpa using hf e he)
+  | some e =>
+    exact ⟨e, List.mem_of_find?_eq_some hf, by simpa using List.find?_some hf, rfl⟩
+
+/-- **a step the documentation refuses is refused**: for every built-in class of the source and
+    its documented class, a step configuration (as `update_conf` delivers it: the three magic
+    strings already rewritten; no list-valued parameter, which sets the `nan_in_list` finding aside)
+    whose documented verdict is `reject` — an unknown key, or a parameter value outside its
+    documented domain, wrong type included, or `step ≠ 1` — never passes the class's `check_conf`. -/
+theorem step_refused_of_documented_reject {kind : String} {c : ClassDesc} {m : String} {d : DocClass}
+    (hkc : (kind, c) ∈ allClasses) (hm : m ∈ c.names) (hd : docClass? kind m = some d)
+    (l r : ImgInfo) (cfg : Dict) (hnd : Dict.nodup cfg = true)
+    (hrw : ∀ kv ∈ cfg, rewriteLeaf kv.2 = kv.2) (hnl : ∀ kv ∈ cfg, kv.2.isList = false)
+    (hv : paramsVerdict d cfg = .reject) (out : Dict) :
+    classCheck noOracle c l r cfg ≠ .ok out := by
+  intro hok
+  obtain ⟨hrun, hacc⟩ := classCheck_ok hok
+  obtain ⟨hagree, hstep⟩ := facts_of_mem hkc hm hd
+  have hwf : wfActions c.actions = true := generated_wf_of_mem hkc
+  obtain ⟨k, v, hmem, hkm, hcase⟩ := paramsVerdict_reject d cfg hv
+  have hl : Dict.lookup cfg k = some v := lookup_of_mem_nodup cfg k v hnd hmem
+  have hnan : pyEq v (.str "NaN") = false := pyEq_str_NaN v (hrw (k, v) hmem)
+  have hout : Dict.lookup out k = some v := by
+    have := classCheck_user_values_kept hwf hok k v hl
+    simpa [nanFix, hnan] using this
+  rw [dict_accepts_iff] at hacc
+  obtain ⟨hentries, hkeys⟩ := hacc
+  simp only [defaultsAgree, Bool.and_eq_true, List.all_eq_true, List.any_eq_true, Bool.or_eq_true,
+    beq_iff_eq] at hagree
+  obtain ⟨⟨⟨⟨_, _⟩, hschemaKeys⟩, hparamsInSchema⟩, _⟩ := hagree
+  rcases hcase with hnone | ⟨p, hp, hrej⟩
+  · -- not a parameter: the key is not in the schema, but it is in the result
+    obtain ⟨e, he, hek⟩ := hkeys (k, v) (mem_of_lookup out k v hout)
+    have hek' : e.1 = k := hek
+    rcases hschemaKeys e he with h1 | ⟨p, hpm, hpn⟩
+    · exact hkm (by rw [← hek', h1])
+    · unfold DocClass.param? at hnone
+      rw [List.find?_eq_none] at hnone
+      have := hnone p hpm
+      simp at this
+      exact this (by rw [hpn, hek'])
+  · obtain ⟨hpm, hpn⟩ := param_mem hp
+    obtain ⟨e, he, hek, hee⟩ := entry_mem (c := c) (k := k) (by
+      obtain ⟨e, he, hen⟩ := hparamsInSchema p hpm
+      exact ⟨e, he, by rw [hen, hpn]⟩)
+    have hacc_e := hentries e he
+    rw [hek, hout] at hacc_e
+    simp only [hee] at hacc_e
+    by_cases hs : p.name = "step"
+    · -- step: guard and schema together
+      simp only [stepFacts, List.all_eq_true] at hstep
+      have hf := hstep p hpm
+      simp only [hs, bne_self_eq_false, Bool.false_or, Bool.and_eq_true, decide_eq_true_eq,
+        List.any_eq_true, Bool.not_eq_true', List.contains_eq_mem, decide_eq_false_iff_not] at hf
+      obtain ⟨⟨⟨hdom, hent⟩, ⟨a, ham, hag⟩⟩, hnn⟩ := hf
+      have hk : k = "step" := by rw [← hpn, hs]
+      subst hk
+      have hshape := shape_stepOne v
+      rw [hdom] at hrej
+      rw [hrej] at hshape
+      simp only [Agrees, Bool.and_eq_false_iff] at hshape
+      rcases hshape with h1 | h1
+      · -- the guard refuses
+        cases a with
+        | guardNe k0 g e0 =>
+          simp only [isStepGuard, Bool.and_eq_true, beq_iff_eq, decide_eq_true_eq] at hag
+          obtain ⟨rfl, rfl⟩ := hag
+          have := guard_respected l r c.actions cfg out "step" (.int 1) v e0 hrun ham hnn hl
+          rw [this] at h1; exact Bool.noConfusion h1
+        | default _ _ => simp [isStepGuard] at hag
+        | defaultElifNaN _ _ => simp [isStepGuard] at hag
+        | refuseGrids => simp [isStepGuard] at hag
+      · rw [hent] at hacc_e; rw [hacc_e] at h1; exact Bool.noConfusion h1
+    · have hrow := row_of_mem hkc hm hd hpm hs
+      have hpol := parameters_policed _ hrow v (by
+        simp [nanListException, hnl (k, v) hmem])
+      simp only at hpol
+      rw [hrej] at hpol
+      simp only [Agrees] at hpol
+      rw [hpn] at hpol
+      rw [hacc_e] at hpol; exact Bool.noConfusion hpol
+
+
+/-! the accept direction -/
+
+/-- the guards of a sequence are compatible with a configuration: the user's value passes, the
+    guarded key is not NaN-rewritten, the default the sequence would insert passes; and no disparity
+    grid is given when the sequence refuses grids -/
+def GuardsCompatible (l r : ImgInfo) (acts : List Action) (cfg : Dict) : Prop :=
+  (∀ k g e, Action.guardNe k g e ∈ acts →
+    (∀ u, Dict.lookup cfg k = some u → pyEq u g = true) ∧ k ∉ nanKeys acts ∧
+    (∀ dflt, defaultOf acts k = some dflt → pyEq dflt g = true)) ∧
+  (Action.refuseGrids ∈ acts → (l.dispSource.isStr || r.dispSource.isStr) = false)
+
+theorem defaultOf_cons_of_ne (a : Action) (rest : List Action) (k : String)
+    (h : ∀ k0 v0, a = .default k0 v0 ∨ a = .defaultElifNaN k0 v0 → k0 ≠ k) :
+    defaultOf (a :: rest) k = defaultOf rest k := by
+  cases a with
+  | default k0 v0 => simp [defaultOf, h k0 v0 (Or.inl rfl)]
+  | defaultElifNaN k0 v0 => simp [defaultOf, h k0 v0 (Or.inr rfl)]
+  | guardNe _ _ _ => simp [defaultOf]
+  | refuseGrids => simp [defaultOf]
+
+/-- a well-formed sequence whose guards are compatible with the configuration runs to the end -/
+theorem runActions_succeeds (l r : ImgInfo) (acts : List Action) :
+    ∀ cfg : Dict, wfActions acts = true → GuardsCompatible l r acts cfg →
+      ∃ out, runActions l r acts cfg = .ok out := by
+  induction acts with
+  | nil => intro cfg _ _; exact ⟨cfg, rfl⟩
+  | cons a rest ih =>
+    intro cfg hwf hG
+    obtain ⟨hguards, hrefuse⟩ := hG
+    -- the head action succeeds
+    have hhead : ∃ cfg', runAction l r cfg a = .ok cfg' := by
+      cases a with
+      | default k0 v0 => exact ⟨_, rfl⟩
+      | defaultElifNaN k0 v0 =>
+        simp only [runAction]
+        cases Dict.lookup cfg k0 <;> exact ⟨_, rfl⟩
+      | guardNe k0 g e0 =>
+        simp only [runAction]
+        cases hl : Dict.lookup cfg k0 with
+        | none => exact ⟨_, rfl⟩
+        | some cur =>
+          have := (hguards k0 g e0 (by simp)).1 cur hl
+          simp [this]
+      | refuseGrids =>
+        simp only [runAction]
+        have := hrefuse (by simp)
+        simp [this]
+    obtain ⟨cfg', hA⟩ := hhead
+    have hwfr : wfActions rest = true := by
+      cases a <;> simp only [wfActions, Bool.and_eq_true] at hwf
+      · exact hwf.2
+      · exact hwf.2
+      · exact hwf.2
+      · exact hwf
+    -- the invariant holds for the rest
+    have hG' : GuardsCompatible l r rest cfg' := by
+      refine ⟨?_, fun hm => hrefuse (List.mem_cons_of_mem _ hm)⟩
+      intro k g e hm
+      obtain ⟨hu, hn, hd⟩ := hguards k g e (List.mem_cons_of_mem _ hm)
+      have hnr : k ∉ nanKeys rest := by
+        intro hx; apply hn
+        cases a <;> simp [nanKeys, hx]
+      refine ⟨?_, hnr, ?_⟩
+      · intro u hlu
+        cases a with
+        | default k0 v0 =>
+          simp only [runAction] at hA
+          by_cases hk : Dict.hasKey cfg k0 = true
+          · simp [hk] at hA; subst hA; exact hu u hlu
+          · simp [hk] at hA; subst hA
+            rw [lookup_setKey] at hlu
+            by_cases e0 : k0 = k
+            · subst e0
+              simp at hlu; subst hlu
+              exact hd v0 (by simp [defaultOf])
+            · simp [e0] at hlu; exact hu u hlu
+        | defaultElifNaN k0 v0 =>
+          have hk0 : k0 ≠ k := by intro e0; subst e0; simp [nanKeys] at hn
+          simp only [runAction] at hA
+          cases hl0 : Dict.lookup cfg k0 with
+          | none =>
+            simp [hl0] at hA; subst hA
+            rw [lookup_setKey] at hlu; simp [hk0] at hlu; exact hu u hlu
+          | some cur =>
+            simp [hl0] at hA
+            by_cases hp : pyEq cur (.str "NaN") = true
+            · simp [hp] at hA; subst hA
+              rw [lookup_setKey] at hlu; simp [hk0] at hlu; exact hu u hlu
+            · simp [hp] at hA; subst hA; exact hu u hlu
+        | guardNe k0 g0 e0 =>
+          simp only [runAction] at hA
+          cases hl0 : Dict.lookup cfg k0 with
+          | none => simp [hl0] at hA; subst hA; exact hu u hlu
+          | some cur =>
+            simp [hl0] at hA
+            by_cases hp : pyEq cur g0 = true
+            · simp [hp] at hA; subst hA; exact hu u hlu
+            · simp [hp] at hA
+        | refuseGrids =>
+          simp only [runAction] at hA
+          by_cases hg : (l.dispSource.isStr || r.dispSource.isStr) = true
+          · simp [hg] at hA
+          · simp [hg] at hA; subst hA; exact hu u hlu
+      · intro dflt hdr
+        -- a default of k in the rest is the default of k in the whole list (one default per key)
+        apply hd dflt
+        cases a with
+        | default k0 v0 =>
+          simp only [wfActions, Bool.and_eq_true, Bool.not_eq_true', List.contains_eq_mem,
+            decide_eq_false_iff_not] at hwf
+          have hnd : k0 ∉ defaultKeys rest := by simpa using hwf.1
+          have : k0 ≠ k := by
+            intro e0; subst e0
+            rw [defaultOf_none_of_not_mem rest k0 hnd] at hdr; cases hdr
+          simp [defaultOf, this, hdr]
+        | defaultElifNaN k0 v0 =>
+          have hk0 : k0 ≠ k := by intro e0; subst e0; simp [nanKeys] at hn
+          simp [defaultOf, hk0, hdr]
+        | guardNe _ _ _ => simp [defaultOf, hdr]
+        | refuseGrids => simp [defaultOf, hdr]
+    obtain ⟨out, hR⟩ := ih cfg' hwfr hG'
+    exact ⟨out, by simp [runActions, hA, hR]⟩
+
+
+/-- more table facts: the only guards are `step != 1`; one schema entry per key; the inserted
+    defaults validate; a key without default is optional or the method key; the method entry accepts
+    the registered names -/
+def acceptFacts (c : ClassDesc) (d : DocClass) : Bool :=
+  c.actions.all (fun a => match a with
+    | .guardNe k v _ => k == "step" && decide (v = .int 1)
+    | _ => true) &&
+  (c.schema.map (·.1)).Nodup &&
+  c.schema.all (fun e =>
+    match defaultOf c.actions e.1 with
+    | some dflt => Schema.accepts noOracle e.2.2 dflt
+    | none => e.2.1 || e.1 == d.methodKey) &&
+  c.names.all (fun m => c.schema.all (fun e => e.1 != d.methodKey || Schema.accepts noOracle e.2.2 (.str m))) &&
+  (match defaultOf c.actions "step" with | some dflt => pyEq dflt (.int 1) | none => true) &&
+  d.methodKey != "step" && !(nanKeys c.actions).contains "step"
+
+theorem generated_accept_facts :
+    allClasses.all (fun kc => kc.2.names.all (fun m =>
+      match docClass? kc.1 m with
+      | some d => acceptFacts kc.2 d
+      | none => false)) = true := by decide
+
+theorem accept_facts_of_mem {kind : String} {c : ClassDesc} {m : String} {d : DocClass}
+    (hkc : (kind, c) ∈ allClasses) (hm : m ∈ c.names) (hd : docClass? kind m = some d) :
+    acceptFacts c d = true := by
+  have h1 := generated_accept_facts
+  rw [List.all_eq_true] at h1
+  have a1 := h1 (kind, c) hkc
+  rw [List.all_eq_true] at a1
+  have b1 := a1 m hm
+  simpa only [hd] using b1
+
+theorem paramsVerdict_accept (d : DocClass) (cfg : Dict) (h : paramsVerdict d cfg = .accept) :
+    ∀ k v, (k, v) ∈ cfg → k = d.methodKey ∨ ∃ p, d.param? k = some p ∧ p.dom.dom v = .accept := by
+  induction cfg with
+  | nil => intro k v hm; simp at hm
+  | cons kv rest ih =>
+    obtain ⟨k0, v0⟩ := kv
+    simp only [paramsVerdict, Dom.and_eq_accept] at h
+    intro k v hm
+    rcases List.mem_cons.1 hm with e | hm'
+    · cases e
+      by_cases hk : k0 = d.methodKey
+      · exact Or.inl hk
+      · right
+        have h1 := h.1
+        simp only [hk, if_false] at h1
+        cases hp : d.param? k0 with
+        | none => simp [hp] at h1
+        | some p => simp [hp] at h1; exact ⟨p, rfl, h1⟩
+    · exact ih h.2 k v hm'
+
+theorem eq_of_nodup_map {α β : Type} (f : α → β) (l : List α) (h : (l.map f).Nodup) {a b : α}
+    (ha : a ∈ l) (hb : b ∈ l) (hf : f a = f b) : a = b := by
+  induction l with
+  | nil => simp at ha
+  | cons x xs ih =>
+    simp only [List.map_cons, List.nodup_cons, List.mem_map, not_exists, not_and] at h
+    rcases List.mem_cons.1 ha with rfl | ha'
+    · rcases List.mem_cons.1 hb with rfl | hb'
+      · rfl
+      · exact absurd hf.symm (h.1 b hb')
+    · rcases List.mem_cons.1 hb with rfl | hb'
+      · exact absurd hf (h.1 a ha')
+      · exact ih h.2 ha' hb'
+
+theorem nodup_entry_unique {c : ClassDesc} (hnd : (c.schema.map (·.1)).Nodup) {e : String × Bool × Schema}
+    (he : e ∈ c.schema) : e.2.2 = entry c e.1 := by
+  unfold entry
+  cases hf : c.schema.find? (fun x => x.1 == e.1) with
+  | none =>
+    rw [List.find?_eq_none] at hf
+    exact absurd (by simp) (hf e he)
+  | some e' =>
+    have hm' : e' ∈ c.schema := List.mem_of_find?_eq_some hf
+    have hk' : e'.1 = e.1 := by simpa using List.find?_some hf
+    have : e' = e := by
+      -- two entries with the same key in a list without duplicate keys are equal
+      exact eq_of_nodup_map (·.1) c.schema hnd hm' he hk'
+    rw [this]
+
+
+theorem dom_accept_not_exception (dk : DomKind) (v : JVal) (h : dk.dom v = .accept) :
+    nanListException dk v = false := by
+  cases v <;> simp [nanListException, JVal.isList]
+  intro e; subst e; simp [DomKind.dom] at h
+
+theorem stepOne_accept (v : JVal) (h : DomKind.stepOne.dom v = .accept) : v = .int 1 := by
+  cases v <;> simp [DomKind.dom, ofBool] at h
+  rename_i i
+  by_cases hi : i = 1
+  · rw [hi]
+  · simp [hi] at h
+
+/-- **a step the documentation accepts is accepted**: for every built-in class of the source and
+    its documented class, a step configuration (as `update_conf` delivers it) naming a registered
+    method, in which every other key is a documented parameter with a value inside its documented
+    domain, passes the class's `check_conf` (no disparity grid being given to a class that refuses
+    grids). -/
+theorem step_accepted_of_documented_accept {kind : String} {c : ClassDesc} {m : String} {d : DocClass}
+    (hkc : (kind, c) ∈ allClasses) (hm : m ∈ c.names) (hd : docClass? kind m = some d)
+    (l r : ImgInfo) (cfg : Dict) (hnd : Dict.nodup cfg = true)
+    (hrw : ∀ kv ∈ cfg, rewriteLeaf kv.2 = kv.2)
+    (hmk : Dict.lookup cfg d.methodKey = some (.str m))
+    (hgr : (l.dispSource.isStr || r.dispSource.isStr) = false)
+    (hv : paramsVerdict d cfg = .accept) :
+    ∃ out, classCheck noOracle c l r cfg = .ok out := by
+  obtain ⟨hagree, hstep⟩ := facts_of_mem hkc hm hd
+  have hfacts := accept_facts_of_mem hkc hm hd
+  have hwf : wfActions c.actions = true := generated_wf_of_mem hkc
+  have hacc := paramsVerdict_accept d cfg hv
+  simp only [acceptFacts, Bool.and_eq_true, List.all_eq_true, decide_eq_true_eq, bne_iff_ne, ne_eq,
+    Bool.not_eq_true', List.contains_eq_mem, decide_eq_false_iff_not] at hfacts
+  obtain ⟨⟨⟨⟨⟨⟨hguards, hsnd⟩, hdefaults⟩, hmethod⟩, hstepDefault⟩, hmkStep⟩, hstepNan⟩ := hfacts
+  simp only [defaultsAgree, Bool.and_eq_true, List.all_eq_true, List.any_eq_true, Bool.or_eq_true,
+    beq_iff_eq] at hagree
+  obtain ⟨⟨⟨⟨hdocDefaults, hdefaultKeysDoc⟩, hschemaKeys⟩, hparamsInSchema⟩, hmethodInSchema⟩ := hagree
+  -- what the Dom-accept hypothesis says about a looked-up key
+  have hlookupAcc : ∀ k v, Dict.lookup cfg k = some v →
+      k = d.methodKey ∨ ∃ p, d.param? k = some p ∧ p.dom.dom v = .accept :=
+    fun k v hl => hacc k v (mem_of_lookup cfg k v hl)
+  -- 1. the sequence runs
+  have hG : GuardsCompatible l r c.actions cfg := by
+    refine ⟨?_, fun _ => hgr⟩
+    intro k g e hmem
+    have hg := hguards _ hmem
+    simp only [Bool.and_eq_true, beq_iff_eq, decide_eq_true_eq] at hg
+    obtain ⟨rfl, rfl⟩ := hg
+    refine ⟨?_, hstepNan, ?_⟩
+    · intro u hl
+      rcases hlookupAcc "step" u hl with hk | ⟨p, hp, hpa⟩
+      · exact absurd hk.symm hmkStep
+      · obtain ⟨hpm, hpn⟩ := param_mem hp
+        simp only [stepFacts, List.all_eq_true] at hstep
+        have hf := hstep p hpm
+        simp only [hpn, bne_self_eq_false, Bool.false_or, Bool.and_eq_true, decide_eq_true_eq] at hf
+        rw [hf.1.1.1] at hpa
+        rw [stepOne_accept u hpa]; simp [pyEq, JVal.toNum?, Num.eq]
+    · intro dflt hdf
+      rw [hdf] at hstepDefault; exact hstepDefault
+  obtain ⟨out, hrun⟩ := runActions_succeeds l r c.actions cfg hwf hG
+  refine ⟨out, ?_⟩
+  rw [classCheck_ok_iff]
+  refine ⟨hrun, ?_⟩
+  rw [dict_accepts_iff]
+  have hlook := runActions_lookup l r c.actions cfg out hwf hrun
+  have hkeysEq := runActions_keys l r c.actions cfg out hwf hrun
+  constructor
+  · -- 2. every schema entry validates on the completed dictionary
+    intro e he
+    rw [hlook e.1]
+    cases hl : Dict.lookup cfg e.1 with
+    | some u =>
+      have hnan : pyEq u (.str "NaN") = false :=
+        pyEq_str_NaN u (hrw (e.1, u) (mem_of_lookup cfg e.1 u hl))
+      simp only [nanFix, hnan, Bool.and_false, Bool.false_eq_true, if_false]
+      rcases hlookupAcc e.1 u hl with hk | ⟨p, hp, hpa⟩
+      · rw [hk, hmk] at hl
+        cases hl
+        have := hmethod m hm e he
+        simpa [hk] using this
+      · obtain ⟨hpm, hpn⟩ := param_mem hp
+        rw [nodup_entry_unique hsnd he]
+        by_cases hs : p.name = "step"
+        · simp only [stepFacts, List.all_eq_true] at hstep
+          have hf := hstep p hpm
+          simp only [hs, bne_self_eq_false, Bool.false_or, Bool.and_eq_true, decide_eq_true_eq] at hf
+          rw [hf.1.1.1] at hpa
+          have hu := stepOne_accept u hpa
+          subst hu
+          have hshape := shape_stepOne (.int 1)
+          have hd1 : DomKind.stepOne.dom (.int 1) = .accept := by decide
+          rw [hd1] at hshape
+          simp only [Agrees, Bool.and_eq_true] at hshape
+          rw [← hpn, hs, hf.1.1.2]
+          exact hshape.2
+        · have hrow := row_of_mem hkc hm hd hpm hs
+          have hpol := parameters_policed _ hrow u (dom_accept_not_exception _ _ hpa)
+          simp only at hpol
+          rw [hpa] at hpol
+          simp only [Agrees] at hpol
+          rw [hpn] at hpol
+          exact hpol
+    | none =>
+      have hdf := hdefaults e he
+      cases hdo : defaultOf c.actions e.1 with
+      | some dflt => simp only [hdo] at hdf ⊢; exact hdf
+      | none =>
+        simp only [hdo, Bool.or_eq_true, beq_iff_eq] at hdf ⊢
+        rcases hdf with h | h
+        · exact h
+        · rw [h, hmk] at hl; cases hl
+  · -- 3. no key outside the schema
+    intro kv hkv
+    have hk : kv.1 ∈ Dict.keys out := List.mem_map_of_mem (f := (·.1)) hkv
+    rw [hkeysEq] at hk
+    have hparamKey : ∀ p ∈ d.params, ∃ e ∈ c.schema, e.1 = p.name := hparamsInSchema
+    rcases List.mem_append.1 hk with h | h
+    · obtain ⟨⟨k', v'⟩, hm', hk'⟩ := List.mem_map.1 h
+      simp only at hk'
+      rcases hacc k' v' hm' with hkm | ⟨p, hp, _⟩
+      · obtain ⟨e, he, hek, _⟩ := hmethodInSchema
+        exact ⟨e, he, by rw [hek, ← hkm, hk']⟩
+      · obtain ⟨hpm, hpn⟩ := param_mem hp
+        obtain ⟨e, he, hen⟩ := hparamKey p hpm
+        exact ⟨e, he, by rw [hen, hpn, hk']⟩
+    · have hdk : kv.1 ∈ defaultKeys c.actions := (List.mem_filter.1 h).1
+      obtain ⟨p, hpm, hpn⟩ := hdefaultKeysDoc kv.1 hdk
+      obtain ⟨e, he, hen⟩ := hparamKey p hpm
+      exact ⟨e, he, by rw [hen, hpn]⟩
+
+
+/-! ### 8. The input-section defaults -/
+
+/-- `default_short_configuration_input`: nodata −9999, mask / classif / segm `None` on both sides,
+    right disparity `None` -/
+theorem input_defaults_documented :
+    inputSchemas.defaults =
+      [("input", .obj [
+        ("left", .obj [("nodata", .int (-9999)), ("mask", .null), ("classif", .null), ("segm", .null)]),
+        ("right", .obj [("nodata", .int (-9999)), ("mask", .null), ("classif", .null), ("segm", .null),
+                        ("disp", .null)])])] := by decide
+
 
 end Pandora.C05
